@@ -135,6 +135,9 @@ func generate(r *hx.Rand, n int, tier string) []runDesc {
 	for i := 0; i < quota(8); i++ {
 		ds = append(ds, runDesc{Kind: "cachekey", Seed: r.U64() % 1000000, Ops: (15 + r.Intn(25)) * scale, Workers: 2 + r.Intn(5)})
 	}
+	for i := 0; i < quota(3); i++ {
+		ds = append(ds, runDesc{Kind: "bulk", Seed: r.U64() % 1000000, Workers: 4 + r.Intn(3), Ops: (8 + r.Intn(6)) * (1 + scale/2)})
+	}
 	for i := 0; i < quota(4); i++ {
 		ds = append(ds, runDesc{Kind: "hh", Seed: r.U64() % 1000000, Workers: 2 + r.Intn(3), Ops: (20 + r.Intn(40)) * scale, PoolClose: r.Intn(2)})
 	}
